@@ -460,6 +460,25 @@ pub mod observe {
     pub fn take() -> Vec<Ev> {
         std::mem::take(&mut *lock(&LOG))
     }
+
+    pub(crate) fn add_return(
+        key: u64,
+        cost: i64,
+        outcome: u8,
+        victims: &[crate::policy::PolicyPair],
+        st: Option<Costs>,
+    ) {
+        if let Some(st) = st {
+            emit(|seq| Ev::AddReturn {
+                seq,
+                key,
+                cost,
+                outcome,
+                victims: victims.iter().map(|p| (p.key, p.cost)).collect(),
+                st,
+            });
+        }
+    }
 }
 
 /// A look-up batch as handed to `push` (the keys are only copied while the observer is on).
@@ -559,4 +578,197 @@ pub fn reset() {
     ticker::disarm();
     clock::disarm();
     counters::reset();
+}
+
+/// Thin public wrappers over crate-private components (delegation only).
+pub mod facade {
+    use crate::CacheError;
+
+    pub struct Bloom(crate::bbloom::Bloom);
+    impl Bloom {
+        pub fn new(cap: usize, false_positive_ratio: f64) -> Self {
+            Bloom(crate::bbloom::Bloom::new(cap, false_positive_ratio))
+        }
+        pub fn add(&mut self, h: u64) {
+            self.0.add(h)
+        }
+        pub fn contains(&self, h: u64) -> bool {
+            self.0.contains(h)
+        }
+        pub fn contains_or_add(&mut self, h: u64) -> bool {
+            self.0.contains_or_add(h)
+        }
+        pub fn reset(&mut self) {
+            self.0.reset()
+        }
+        pub fn clear(&mut self) {
+            self.0.clear()
+        }
+        /// (words, size mask, size exponent, locations per hash, shift)
+        pub fn params(&self) -> (usize, u64, u64, u64, u64) {
+            self.0.verif_params()
+        }
+        pub fn bits_set(&self) -> u64 {
+            self.0.verif_words().iter().map(|w| w.count_ones() as u64).sum()
+        }
+        pub fn words_touched(&self) -> usize {
+            self.0.verif_words().iter().filter(|w| **w != 0).count()
+        }
+    }
+
+    pub struct CountMinRow(crate::sketch::CountMinRow);
+    impl CountMinRow {
+        pub fn new(width: u64) -> Self {
+            CountMinRow(crate::sketch::CountMinRow::new(width))
+        }
+        pub fn get(&self, i: u64) -> u8 {
+            self.0.get(i)
+        }
+        pub fn increment(&mut self, i: u64) {
+            self.0.increment(i)
+        }
+        pub fn reset(&mut self) {
+            self.0.reset()
+        }
+        pub fn clear(&mut self) {
+            self.0.clear()
+        }
+        pub fn bytes(&self) -> Vec<u8> {
+            self.0.verif_bytes().to_vec()
+        }
+    }
+
+    pub struct CountMinSketch(crate::sketch::CountMinSketch);
+    impl CountMinSketch {
+        pub fn new(ctrs: u64) -> Result<Self, CacheError> {
+            crate::sketch::CountMinSketch::new(ctrs).map(CountMinSketch)
+        }
+        pub fn increment(&mut self, h: u64) {
+            self.0.increment(h)
+        }
+        pub fn estimate(&self, h: u64) -> i64 {
+            self.0.estimate(h)
+        }
+        pub fn reset(&mut self) {
+            self.0.reset()
+        }
+        pub fn clear(&mut self) {
+            self.0.clear()
+        }
+        pub fn seeds(&self) -> [u64; 4] {
+            self.0.verif_parts().1
+        }
+        pub fn mask(&self) -> u64 {
+            self.0.verif_parts().2
+        }
+        /// the four rows, two 4-bit counters per byte
+        pub fn rows(&self) -> Vec<Vec<u8>> {
+            self.0
+                .verif_parts()
+                .0
+                .iter()
+                .map(|r| r.verif_bytes().to_vec())
+                .collect()
+        }
+    }
+
+    pub struct TinyLfu(crate::policy::TinyLFU);
+    impl TinyLfu {
+        pub fn new(num_ctrs: usize) -> Result<Self, CacheError> {
+            crate::policy::TinyLFU::new(num_ctrs).map(TinyLfu)
+        }
+        pub fn increment(&mut self, h: u64) {
+            self.0.increment(h)
+        }
+        pub fn increments(&mut self, hs: Vec<u64>) {
+            self.0.increments(hs)
+        }
+        pub fn estimate(&self, h: u64) -> i64 {
+            self.0.estimate(h)
+        }
+        pub fn contains(&self, h: u64) -> bool {
+            self.0.contains(h)
+        }
+        pub fn clear(&mut self) {
+            self.0.clear()
+        }
+        pub fn sketch_estimate(&self, h: u64) -> i64 {
+            self.0.verif_parts().0.estimate(h)
+        }
+        pub fn sketch_rows(&self) -> Vec<Vec<u8>> {
+            let (rows, _, _) = self.0.verif_parts().0.verif_parts();
+            rows.iter().map(|r| r.verif_bytes().to_vec()).collect()
+        }
+        pub fn sketch_seeds_mask(&self) -> ([u64; 4], u64) {
+            let (_, seeds, mask) = self.0.verif_parts().0.verif_parts();
+            (seeds, mask)
+        }
+        pub fn door_bits_set(&self) -> u64 {
+            self.0
+                .verif_parts()
+                .1
+                .verif_words()
+                .iter()
+                .map(|w| w.count_ones() as u64)
+                .sum()
+        }
+        /// (reset period, records since the last reset)
+        pub fn window(&self) -> (usize, usize) {
+            let (_, _, samples, w) = self.0.verif_parts();
+            (samples, w)
+        }
+    }
+
+    /// The real synchronous policy with its real worker thread.
+    #[cfg(feature = "sync")]
+    pub struct Policy(crate::policy::LFUPolicy<std::collections::hash_map::RandomState>);
+    #[cfg(feature = "sync")]
+    impl Policy {
+        pub fn new(ctrs: usize, max_cost: i64) -> Result<Self, CacheError> {
+            crate::policy::LFUPolicy::new(ctrs, max_cost).map(Policy)
+        }
+        pub fn collect_metrics(&mut self, m: std::sync::Arc<crate::Metrics>) {
+            self.0.collect_metrics(m)
+        }
+        pub fn add(&self, k: u64, c: i64) -> (Option<Vec<(u64, i64)>>, bool) {
+            let (v, a) = self.0.add(k, c);
+            (v.map(|v| v.into_iter().map(|p| (p.key, p.cost)).collect()), a)
+        }
+        pub fn push(&self, ks: Vec<u64>) -> Result<bool, CacheError> {
+            self.0.push(ks)
+        }
+        pub fn estimate(&self, k: u64) -> i64 {
+            self.0.verif_estimate(k)
+        }
+        pub fn costs(&self) -> (Vec<(u64, i64)>, i64, i64) {
+            self.0.verif_costs()
+        }
+        pub fn contains(&self, k: u64) -> bool {
+            self.0.contains(&k)
+        }
+        pub fn cost(&self, k: u64) -> i64 {
+            self.0.cost(&k)
+        }
+        pub fn cap(&self) -> i64 {
+            self.0.cap()
+        }
+        pub fn update(&self, k: u64, c: i64) {
+            self.0.update(&k, c)
+        }
+        pub fn remove(&self, k: u64) {
+            self.0.remove(&k)
+        }
+        pub fn clear(&self) {
+            self.0.clear()
+        }
+        pub fn close(&self) -> Result<(), CacheError> {
+            self.0.close()
+        }
+        pub fn max_cost(&self) -> i64 {
+            self.0.max_cost()
+        }
+        pub fn update_max_cost(&self, m: i64) {
+            self.0.update_max_cost(m)
+        }
+    }
 }
